@@ -20,13 +20,14 @@ NPROC = int(os.environ.get("VERIF_NPROC", "16"))
 
 
 class Case:
-    def __init__(self, harness, label, shape, target=(), group=None, timeout_ms=None, expect=None):
+    def __init__(self, harness, label, shape, target=(), group=None, timeout_ms=None, expect=None, no_loop_specs=False):
         self.harness = harness
         self.label = label
         self.shape = shape
         self.target = list(target)
         self.group = group or harness.split(".")[-1]
         self.timeout_ms = timeout_ms
+        self.no_loop_specs = no_loop_specs
         self.expect = expect  # None (must be proved) | "refuted" (sentinel that must fail)
 
 
@@ -76,7 +77,13 @@ def _run_case(arg):
         E, mod, cases = _engine(mutant_key, modname)
         case = cases[idx]
         t0 = time.time()
-        res = run_harness(E, case.harness, case.label, case.shape, verify_target=case.target)
+        saved_specs = E.I.loop_specs
+        if case.no_loop_specs:
+            E.I.loop_specs = {}
+        try:
+            res = run_harness(E, case.harness, case.label, case.shape, verify_target=case.target)
+        finally:
+            E.I.loop_specs = saved_specs
         out = {
             "harness": case.harness, "case": case.label, "group": case.group, "unsupported": res.unsupported, "paths": res.paths,
             "seconds": 0.0, "inlined": sorted(res.inlined), "used_contracts": sorted(res.used_contracts),
